@@ -22,6 +22,8 @@ namespace Demeter.Core
 inductive PyErr
   | typeError | valueError | indexError | keyError | demeterError
   | diverges     -- not an exception: the call does not return (a `notify` hook that answers every delivery with a new accepted operation)
+  | hookError          -- an exception class of the strategy's own that is not a `RuntimeError`, raised by a hook and not caught by it
+  | hookRuntimeError   -- a `RuntimeError` subclass raised by a hook (`DemeterError` is one: an uncaught refusal of an operation)
 deriving DecidableEq, Repr, Inhabited
 
 def PyErr.name : PyErr → String
@@ -31,6 +33,14 @@ def PyErr.name : PyErr → String
   | .keyError => "KeyError"
   | .demeterError => "DemeterError"
   | .diverges => "(does not return)"
+  | .hookError => "HookError"
+  | .hookRuntimeError => "HookRuntimeError"
+
+/-- `isinstance(e, RuntimeError)`: what the `except RuntimeError` clause around the bar loop catches (`DemeterError(RuntimeError)`, _typing.py) -/
+def PyErr.isRuntime : PyErr → Bool
+  | .demeterError => Gen.coreDemeterErrorIsRuntimeError
+  | .hookRuntimeError => true
+  | _ => false
 
 /-- `to_minute(time)`: drop the seconds -/
 def toMinute (s : Int) : Int := s - s % Gen.coreMinuteSec
@@ -207,6 +217,124 @@ def trigRun : List Int → List Trig → List Fire × List Trig × Option PyErr
     | none =>
       let out := trigRun bars r.2.1
       (r.1 ++ out.1, out.2.1, out.2.2)
+
+/-! ### hooks that change `strategy.triggers` while the loop runs over it
+
+  `for trigger in self._strategy.triggers:` (actuator.py) iterates the LIVE list: CPython's list iterator keeps the list object and
+  an index, and every step is `if index < len(list): x = list[index]; index += 1`.  A `do` callback that appends to the list or removes
+  from it therefore changes what the remaining steps see:
+
+    * an appended trigger is reached later in the same loop — it is evaluated on the very bar it was installed on;
+    * removing an element AT OR BEFORE the cursor (the trigger that is running, or one visited earlier) moves everything behind it one
+      slot down while the index goes on: the element that followed the running trigger is never fetched on this bar — its `when` is not
+      called, it does not fire even if the bar is one of its times, and a period trigger's schedule is not touched;
+    * removing an element ahead of the cursor just takes it out.
+
+  Ids identify objects (`list.remove` compares with `==`, which is identity for triggers); a script removes a trigger only if it is
+  installed (`if t in self.triggers: self.triggers.remove(t)`), so removal of an absent id does nothing; an object is never installed twice at
+  the same time (appended triggers are new objects).  `list.insert` and rebinding `strategy.triggers` inside a `do` callback are not modelled. -/
+
+/-- what a hook does to `strategy.triggers` -/
+inductive TMut
+  | add (t : Trig)      -- `self.triggers.append(t)`
+  | del (id : Nat)      -- `if t in self.triggers: self.triggers.remove(t)`
+deriving DecidableEq, Repr, Inhabited
+
+/-- `list.remove`: the first element with this id goes -/
+def eraseId (id : Nat) : List Trig → List Trig
+  | [] => []
+  | t :: l => if t.id = id then l else t :: eraseId id l
+
+def applyMut : TMut → List Trig → List Trig
+  | .add t, l => l ++ [t]
+  | .del id, l => eraseId id l
+
+def applyMuts : List TMut → List Trig → List Trig
+  | [], l => l
+  | m :: ms, l => applyMuts ms (applyMut m l)
+
+/-- the loop of the code, index by index: `i` is the iterator's index, the list is `strategy.triggers` as it is now, `mut id` is what the
+    action of trigger `id` does to the list on this bar.  A `do` that installs a trigger which fires at once and installs another one … never
+    lets the loop end: the model follows `fuel` steps and answers `diverges` if the index is still inside the list then. -/
+def dynLoop (mu : Nat → List TMut) (now : Int) : Nat → Nat → List Trig → List Fire × List Trig × Option PyErr
+  | 0, i, l => ([], l, if i < l.length then some .diverges else none)
+  | fuel + 1, i, l =>
+    match l[i]? with
+    | none => ([], l, none)
+    | some t =>
+      match whenErr t.k with
+      | some e => ([], l, some e)
+      | none =>
+        let r := whenT now t.k
+        let l1 := l.set i { t with k := r.2 }
+        if r.1 then
+          let q := dynLoop mu now fuel (i + 1) (applyMuts (mu t.id) l1)
+          (⟨now, t.id, t.kw⟩ :: q.1, q.2.1, q.2.2)
+        else dynLoop mu now fuel (i + 1) l1
+
+/-- the trigger part of one bar when the actions may change the list: `extra` further steps are followed beyond the length the list has when
+    the loop starts -/
+def trigPhaseD (mu : Nat → List TMut) (extra : Nat) (now : Int) (trigs : List Trig) : List Fire × List Trig × Option PyErr :=
+  let r := dynLoop mu now (trigs.length + extra) 0 trigs
+  match r.2.2 with
+  | some e => (r.1, r.2.1, some e)
+  | none =>
+    let q := retire now r.2.1
+    (r.1, q.1, q.2)
+
+/-- a whole run: `mu row id` is what the action of trigger `id` does to the list on bar number `row`.  Also returned: the ids installed
+    after the retirement of every bar (what `on_bar` finds in `self.triggers`). -/
+def trigRunD (mu : Nat → Nat → List TMut) (extra : Nat) : Nat → List Int → List Trig → List Fire × List (List Nat) × List Trig × Option PyErr
+  | _, [], trigs => ([], [], trigs, none)
+  | row, t :: bars, trigs =>
+    let r := trigPhaseD (mu row) extra t trigs
+    match r.2.2 with
+    | some e => (r.1, [], r.2.1, some e)
+    | none =>
+      let out := trigRunD mu extra (row + 1) bars r.2.1
+      (r.1 ++ out.1, r.2.1.map (·.id) :: out.2.1, out.2.2.1, out.2.2.2)
+
+/-- **the cursor reading of the same loop.**  `done`: the slots the iterator has passed, `todo`: the slots ahead of it, `debt`: how many
+    slots the index is beyond the end of the list (only when nothing is ahead).  Visiting takes the head of `todo`; an append goes to the
+    end of `todo` — unless the index is beyond the end, then the new element lands in a slot the iterator has passed already and is never
+    fetched on this bar; a removal among `done` lets the head of `todo` slide into a passed slot unevaluated (or, with nothing ahead, puts
+    the index beyond the end); a removal ahead takes the element out.  `Proofs/C18/Dynamic.lean` proves `dynLoop` equal to this. -/
+structure Cursor where
+  done : List Trig
+  todo : List Trig
+  debt : Nat
+deriving Repr, Inhabited
+
+def Cursor.list (c : Cursor) : List Trig := c.done ++ c.todo
+
+def Cursor.mut : TMut → Cursor → Cursor
+  | .add t, c => if c.debt = 0 then { c with todo := c.todo ++ [t] } else { c with done := c.done ++ [t], debt := c.debt - 1 }
+  | .del id, c =>
+    if c.done.any (·.id == id) then
+      match c.todo with
+      | [] => { c with done := eraseId id c.done, debt := c.debt + 1 }
+      | u :: rest => { c with done := eraseId id c.done ++ [u], todo := rest }
+    else { c with todo := eraseId id c.todo }
+
+def Cursor.muts : List TMut → Cursor → Cursor
+  | [], c => c
+  | m :: ms, c => Cursor.muts ms (Cursor.mut m c)
+
+def cursorLoop (mu : Nat → List TMut) (now : Int) : Nat → Cursor → List Fire × Cursor × Option PyErr
+  | 0, c => ([], c, if c.todo.isEmpty then none else some .diverges)
+  | fuel + 1, c =>
+    match c.todo with
+    | [] => ([], c, none)
+    | t :: rest =>
+      match whenErr t.k with
+      | some e => ([], c, some e)
+      | none =>
+        let r := whenT now t.k
+        let c1 : Cursor := { c with done := c.done ++ [{ t with k := r.2 }], todo := rest }
+        if r.1 then
+          let q := cursorLoop mu now fuel (Cursor.muts (mu t.id) c1)
+          (⟨now, t.id, t.kw⟩ :: q.1, q.2.1, q.2.2)
+        else cursorLoop mu now fuel c1
 
 /-- install constructed triggers: ids are list positions -/
 def installFrom (i : Nat) : List (String × TrigKind) → List Trig
